@@ -12,6 +12,6 @@ def kinds_for(op):
 
 def slices_for(kind, op):
     # the fault cells run the operation twice (fault, then rerun); direct-to-pack forks most
-    if kind == 'fault' and op in ('direct', 'direct_noholes', 'pack', 'pack_clean', 'import', 'direct_nofsync', 'pack_nofsync'):
+    if kind == 'fault' and op in ('direct', 'direct_noholes', 'pack', 'pack_clean', 'import', 'direct_nofsync', 'pack_nofsync', 'pack_pending'):
         return NARROW
     return WIDE
